@@ -1607,7 +1607,66 @@ def run_normalize_case(case, H, limit_s=5.0):
 
 
 # ---------------------------------------------------------------- interval bounds enclose sampled values
+def run_endpoint_case(case, H):
+    """Open / closed ends of the reported interval: at a point where a CLOSED condition is tight (x <= 2 at x = 2) the
+    value of the expression is attained, so it must not coincide with an end of the interval that is reported as open
+    (and must lie inside, as everywhere).  Polynomial expressions at rational points, evaluated at 50 digits."""
+    e = P(str(case.get('e')))
+    conds = [P(str(c)) for c in case.get('conds', [])]
+    cd = conditions.Conditions(conds)
+    try:
+        with quiet(), time_limit(10):
+            iv = cd.get_bounds_for_expr(copy.deepcopy(e))
+    except Timeout:
+        H.inconc('rule-timeout')
+        H.case(case, False, 'bounds-endpoint:timeout')
+        return
+    except Exception as ex:
+        H.case(case, False, 'bounds-endpoint:rejected')
+        H.note('bounds_raised:' + type(ex).__name__)
+        return
+    if iv is None:
+        H.case(case, False, 'bounds-endpoint:none')
+        return
+    ev = L.Evaluator()
+    n_ok, hit, out = 0, 0, None
+    for d in case.get('draws') or []:
+        try:
+            env_fr = {str(k): Fraction(v) for k, v in d.items()}
+        except (ValueError, TypeError, ZeroDivisionError):
+            raise CaseInvalid('draw')
+        with mp.workdps(50):
+            env = {k: mpf(x.numerator) / x.denominator for k, x in env_fr.items()}
+            try:
+                if not all(ev.truth(c, env) for c in conds):
+                    continue
+                v = ev.value(e, env)
+                lo, hi = ev.value_or_inf(iv.start, {}), ev.value_or_inf(iv.end, {})
+            except Inconc as ex:
+                H.inconc('bounds:' + ex.reason.split(':')[0])
+                continue
+            n_ok += 1
+            tol = mpf(10) ** (-40) * (1 + abs(v))
+            at_lo, at_hi = abs(v - lo) < tol, abs(v - hi) < tol
+            hit += 1 if (at_lo or at_hi) else 0
+            eps = mpf(10) ** (-9) * (1 + abs(v))
+            if out is None and ((iv.left_open and at_lo) or (iv.right_open and at_hi)):
+                out = ('open-end-attained', env_fr, v)
+            elif out is None and (v < lo - eps or v > hi + eps):
+                out = ('value-outside-interval', env_fr, v)
+    if out is not None:
+        what, env_fr, v = out
+        H.violation('bounds:%s:%s' % (what, head_feature(e)),
+                    dict(case, draws=[{k: str(x) for k, x in sorted(env_fr.items())}]),
+                    'get_bounds_for_expr(%s) under %s is %s, but at %s (which satisfies the conditions) the value is %s' % (
+                        e, [str(c) for c in conds], iv, {k: str(x) for k, x in sorted(env_fr.items())}, mp.nstr(v, 15)))
+    H.case(case, nontrivial=(n_ok > 0), klass='bounds-endpoint:%s' % (
+        'violated' if out else ('value-at-an-end' if hit else ('enclosed' if n_ok else 'no-admissible-point'))))
+
+
 def run_bounds_case(case, H):
+    if case.get('endpoint'):
+        return run_endpoint_case(case, H)
     e = P(str(case.get('e')))
     conds = [P(str(c)) for c in case.get('conds', [])]
     seeds = [int(s) for s in case.get('seeds', [1, 2, 3, 4, 5, 6])]
@@ -2202,6 +2261,19 @@ def strategies():
             e = draw(st.sampled_from(['x ^ y', 'x ^ y', '(x ^ y) * 2', 'x ^ y + x', 'log(x ^ y)', '(1/2) ^ y', 'x ^ (y + 1)', '(x + 1/4) ^ y',
                                       'sqrt(x) ^ y', '1 / x ^ y', 'x ^ (2 * y)', '(x * y) ^ y', 'x ^ y - y ^ x', 'exp(x ^ y)', '(x / 2) ^ (y / 2)',
                                       '2 ^ y', 'x ^ x']))
+        if draw(st.integers(0, 3)) == 0:
+            # end points: a polynomial shape under conditions with open and closed ends (also intervals symmetric about
+            # 0, where both ends of x give the same value of an even power), probed AT the ends
+            lo, hi = draw(st.sampled_from([('-2', '2'), ('-1', '1'), ('-3', '3'), ('-1/2', '1/2'), ('-1', '2'), ('-2', '1'), ('0', '2'),
+                                           ('1', '3'), ('-3', '-1'), ('-2', '0')]))
+            cs = ['x %s %s' % (draw(st.sampled_from(['>', '>='])), lo), 'x %s %s' % (draw(st.sampled_from(['<', '<='])), hi)]
+            p = draw(st.sampled_from(['2', '2', '4', '3', '6', '1']))
+            c = draw(st.sampled_from(['1', '2', '4', '9', '16', '1/4']))
+            e = draw(st.sampled_from(['x ^ %(p)s', '%(c)s - x ^ %(p)s', 'x ^ %(p)s + %(c)s', '%(c)s * x ^ %(p)s', '(x ^ %(p)s) ^ 2',
+                                      '-(x ^ %(p)s)', 'x ^ %(p)s - x ^ 2', '(x - 1) ^ %(p)s', 'x ^ %(p)s * x', '(2 * x) ^ %(p)s',
+                                      '(-x) ^ %(p)s', '%(c)s - (x ^ 2) ^ %(p)s', 'x ^ 2 * x ^ %(p)s'])) % {'p': p, 'c': c}
+            pts = [lo, hi, '0', str((Fraction(lo) + Fraction(hi)) / 2)]
+            return {'kind': 'bounds', 'endpoint': True, 'e': e, 'conds': cs, 'draws': [{'x': q} for q in pts]}
         return {'kind': 'bounds', 'e': e, 'conds': cs, 'seeds': draw(st.lists(st.integers(0, 2 ** 20), min_size=6, max_size=6))}
     S['bounds'] = c_bounds()
 
